@@ -9,10 +9,14 @@ package c04w
 import (
 	"context"
 	"fmt"
+	"os"
+	"regexp"
+	"strings"
 	"sync"
 	"testing"
 	"time"
 
+	"github.com/obolnetwork/charon/app/log"
 	"github.com/obolnetwork/charon/core"
 	"github.com/obolnetwork/charon/verifrt"
 
@@ -23,13 +27,46 @@ import (
 
 const protoQBFT = "/charon/consensus/qbft/2.0.0"
 
+// logSink collects what the nodes log (charon's global logger), so that a consensus message of one
+// honest member that another honest member's component refuses can be observed: the p2p receiver
+// logs the handler's error.
+type logSink struct {
+	mu    sync.Mutex
+	lines []string
+}
+
+func (s *logSink) Write(p []byte) (int, error) {
+	s.mu.Lock()
+	s.lines = append(s.lines, string(p))
+	s.mu.Unlock()
+	return len(p), nil
+}
+func (s *logSink) Sync() error { return nil }
+func (s *logSink) take() []string {
+	s.mu.Lock()
+	defer s.mu.Unlock()
+	l := s.lines
+	s.lines = nil
+	return l
+}
+
+var (
+	sink     logSink
+	ansiRe   = regexp.MustCompile("\x1b\\[[0-9;]*m")
+	digitsRe = regexp.MustCompile("[0-9]+")
+)
+
 func TestSim(t *testing.T) {
+	if os.Getenv("VERIF_MODE") != "" {
+		log.InitConsoleForT(t, &sink)
+	}
 	kernel.Main(t, kernel.Harness{Name: "c04w", Horizon: time.Hour, Body: body, MaxSteps: 3_000_000})
 }
 
 func body(c *kernel.Ctx) {
 	ctx, cancel := context.WithCancel(context.Background())
 	defer cancel()
+	sink.take()
 
 	n := []int{4, 7, 5, 4, 7, 6}[verifrt.Intn("cfg", 6)]
 	f := (n - 1) / 3
@@ -44,7 +81,7 @@ func body(c *kernel.Ctx) {
 
 	// ---- fault plan: <= f nodes silent, crashed at a time, or crashed after their k-th consensus send
 	type plan struct {
-		kind  int // 1 silent, 2 crash at time, 3 crash after k consensus envelopes
+		kind  int // 1 silent, 2 crash at time, 3 crash after k consensus envelopes, 4 late-starting round-1 leader
 		at    time.Duration
 		after int
 	}
@@ -55,7 +92,22 @@ func body(c *kernel.Ctx) {
 		for plans[p].kind != 0 {
 			p = (p + 1) % n
 		}
-		switch verifrt.Intn("f", 3) {
+		switch verifrt.Intn("f", 4) {
+		case 3:
+			// the leader of round 1 starts late, so late that its proposal arrives towards the end of the
+			// round: some members prepare but cannot decide before their round timer fires, and the next
+			// leaders must re-propose the prepared value with its certificate
+			lp := int((int64(duty.Slot) + int64(duty.Type) + 1) % int64(n))
+			if plans[lp].kind != 0 {
+				plans[p] = plan{kind: 1}
+				break
+			}
+			back := time.Duration(100+verifrt.Intn("f", 250)) * time.Duration(maxLat) * time.Millisecond / 100
+			at := time.Second - back
+			if at < time.Millisecond || verifrt.Intn("f", 4) == 0 {
+				at = time.Duration(300+verifrt.Intn("f", 650)) * time.Millisecond
+			}
+			plans[lp] = plan{kind: 4, at: at}
 		case 0:
 			plans[p] = plan{kind: 1}
 		case 1:
@@ -93,6 +145,12 @@ func body(c *kernel.Ctx) {
 			verifrt.Fault("duplicate")
 		}
 		if e.Proto == protoQBFT {
+			switch l := len(e.Payload); {
+			case l > 4000:
+				verifrt.Probe("qbft-msg>4000B") // a proposal carrying ROUND-CHANGEs and a prepared certificate
+			case l > 2000:
+				verifrt.Probe("qbft-msg>2000B")
+			}
 			from := idx[string(e.From)]
 			if pl, ok := plans[from]; ok && pl.kind == 3 {
 				mu.Lock()
@@ -132,8 +190,18 @@ func body(c *kernel.Ctx) {
 			}
 			return nil
 		})
+		startDelay := time.Duration(verifrt.Intn("w", 300)) * time.Millisecond
+		if pl := plans[i]; pl.kind == 4 {
+			startDelay = pl.at
+			verifrt.Fault("late-start-leader")
+			mu.Lock()
+			if pl.at > lastFault {
+				lastFault = pl.at
+			}
+			mu.Unlock()
+		}
 		verifrt.GoNode(nd.Tag, func() {
-			verifrt.Sleep(time.Until(dutyStart) + time.Duration(verifrt.Intn("w", 300))*time.Millisecond)
+			verifrt.Sleep(time.Until(dutyStart) + startDelay)
 			nd.Sched.Trigger(nd.Ctx, duty, cl.DefSet(slot))
 		})
 		if pl := plans[i]; pl.kind == 2 {
@@ -182,6 +250,34 @@ func body(c *kernel.Ctx) {
 		}
 		if ok && at > time.Second {
 			verifrt.Probe("decided-after-round-1")
+		}
+	}
+	// "No message sent by an honest member is ever rejected ... by another honest member": every member
+	// here is honest (crash faults only), so no consensus message may be refused by a receiving
+	// component for its content. Refusals for expiry or a cancelled receive are not about content.
+	reported := map[string]bool{}
+	for _, raw := range sink.take() {
+		line := ansiRe.ReplaceAllString(raw, "")
+		const marker = "The request could not be processed: "
+		i := strings.Index(line, marker)
+		if i < 0 {
+			continue
+		}
+		reason := strings.TrimSpace(line[i+len(marker):])
+		if j := strings.Index(reason, " {"); j >= 0 {
+			reason = reason[:j]
+		}
+		low := strings.ToLower(reason)
+		if strings.Contains(low, "context canceled") || strings.Contains(low, "context deadline") || strings.Contains(low, "expired") || strings.Contains(low, "cancelled") {
+			continue
+		}
+		class := strings.ReplaceAll(strings.TrimSpace(digitsRe.ReplaceAllString(reason, "")), " ", "-")
+		if len(class) > 40 {
+			class = class[:40]
+		}
+		if !reported[class] {
+			reported[class] = true
+			c.Violate("C04", "honest-msg-rejected", class, "a node's component refused a peer's message although every member is honest: %s", strings.TrimSpace(line))
 		}
 	}
 	cancel()
